@@ -3,6 +3,7 @@ package main
 import (
 	"bytes"
 	"fmt"
+	"os"
 	"runtime/debug"
 	"sort"
 	"sync"
@@ -164,14 +165,21 @@ type runner struct {
 	kobs     []kob
 	kcap     int
 	opIndex  int
-	nlocate  int
+	nlocate  map[int]int
+	tabIdx   map[int64]map[string][]uint64
+	readSeq  uint64
 	inConc   bool
 }
 
 var fillKey = []byte("\x03fill")
 
+// how many Gets per program are located (before and after the call) for the address observations, per path
+var locateCap = map[int]int{pathGet: 40, pathSnapGet: 8, pathTxnGet: 16}
+
+var timing = os.Getenv("C20_TIMING") != ""
+
 func newRunner(p *Program) *runner {
-	return &runner{p: p, cfg: p.Cfg, stor: newGateStor(), opts: p.Cfg.Options(), model: oracle{}, stats: map[string]int{}, kcap: 48}
+	return &runner{p: p, cfg: p.Cfg, stor: newGateStor(), opts: p.Cfg.Options(), model: oracle{}, stats: map[string]int{}, kcap: 72, nlocate: map[int]int{}}
 }
 
 func (r *runner) stat(k string, n int) {
@@ -222,13 +230,9 @@ func (r *runner) checkHeld(force bool) *failure {
 		}
 		h.age++
 		if force || h.age > 6 {
+			// only the visible part: the key may have been rewritten since, so a re-read cannot vouch for the
+			// spare capacity of this old result (the full-capacity overwrite is done on fresh results, see probeGet)
 			scribbleLen(h.v)
-			if h.recheck != nil {
-				if f := h.recheck(); f != nil {
-					return f
-				}
-			}
-			scribble(h.v)
 			if h.recheck != nil {
 				if f := h.recheck(); f != nil {
 					return f
@@ -301,14 +305,18 @@ func (r *runner) observe(path, loc int, v []byte) {
 
 // locate tells where the newest entry of key lives right now: LocMem/LocFrozen/LocL0/LocDeep, -1 unknown/absent.
 func (r *runner) locate(key []byte) int {
+	maxSeq := r.readSeq // entries above the reader's sequence number are invisible to it (Snapshot.Get)
+	if maxSeq == 0 {
+		maxSeq = ^uint64(0)
+	}
 	live, frozen, _ := leveldb.VerifMemEntries(r.db)
 	for _, e := range live {
-		if bytes.Equal(e.Ukey, key) {
+		if e.Seq <= maxSeq && bytes.Equal(e.Ukey, key) {
 			return LocMem
 		}
 	}
 	for _, e := range frozen {
-		if bytes.Equal(e.Ukey, key) {
+		if e.Seq <= maxSeq && bytes.Equal(e.Ukey, key) {
 			return LocFrozen
 		}
 	}
@@ -328,23 +336,29 @@ func (r *runner) locate(key []byte) int {
 		if bytes.Compare(key, t.Imin[:len(t.Imin)-8]) < 0 || bytes.Compare(key, t.Imax[:len(t.Imax)-8]) > 0 {
 			continue
 		}
-		if bestLevel >= 0 && t.Level > bestLevel && bestLevel > 0 {
+		if bestLevel >= 0 && t.Level > bestLevel {
 			break
 		}
-		ents, err := leveldb.VerifTableEntries(r.db, t)
-		if err != nil {
-			return -1
-		}
-		for _, e := range ents {
-			if bytes.Equal(e.Ukey, key) && (bestLevel < 0 || e.Seq > bestSeq) {
-				bestLevel, bestSeq = t.Level, e.Seq
+		// tables are immutable: the sequence numbers per user key, cached by table number
+		idx, ok := r.tabIdx[t.Num]
+		if !ok {
+			ents, err := leveldb.VerifTableEntries(r.db, t)
+			if err != nil {
+				return -1
 			}
+			idx = map[string][]uint64{}
+			for _, e := range ents {
+				idx[string(e.Ukey)] = append(idx[string(e.Ukey)], e.Seq)
+			}
+			if r.tabIdx == nil {
+				r.tabIdx = map[int64]map[string][]uint64{}
+			}
+			r.tabIdx[t.Num] = idx
 		}
-		if bestLevel > 0 {
-			break
-		}
-		if bestLevel == 0 && t.Level > 0 {
-			break
+		for _, sq := range idx[string(key)] {
+			if sq <= maxSeq && (bestLevel < 0 || sq > bestSeq) {
+				bestLevel, bestSeq = t.Level, sq
+			}
 		}
 	}
 	switch {
@@ -388,7 +402,6 @@ func (r *runner) getOnce(view oracle, get getter, key []byte, what, when string)
 // is read once more.
 func (r *runner) probeGet(view oracle, get getter, key []byte, reps int, hold, mayScribble bool, path int, what string) *failure {
 	_, ok := view[string(key)]
-	loc := -2
 	var vals [][]byte
 	for i := 0; i <= reps; i++ {
 		var h0, m0 int64
@@ -398,6 +411,14 @@ func (r *runner) probeGet(view oracle, get getter, key []byte, reps int, hold, m
 		when := ""
 		if i > 0 {
 			when = fmt.Sprintf(" (read %d, after the client overwrote the slices returned by earlier reads)", i+1)
+		}
+		// where the key lives is looked up before and after the call: the observation counts only if a
+		// background flush/compaction did not move it in between
+		doObs := ok && path >= 0 && !r.inConc && r.nlocate[path] < locateCap[path]
+		locBefore := -1
+		if doObs {
+			r.nlocate[path]++
+			locBefore = r.locateFor(path, key)
 		}
 		v, f := r.getOnce(view, get, key, what, when)
 		if f != nil {
@@ -412,20 +433,10 @@ func (r *runner) probeGet(view oracle, get getter, key []byte, reps int, hold, m
 				r.stat("get_filled_block_cache", 1)
 			}
 		}
-		if ok && path >= 0 && !r.inConc && cap(v) > 0 && r.nlocate < 64 {
-			if loc == -2 {
-				r.nlocate++
-				if path == pathTxnGet {
-					loc = r.locateTxn(key)
-				} else {
-					loc = r.locate(key)
-				}
-			}
-			if loc >= 0 {
-				r.observe(path, loc, v)
-				if i == 0 {
-					r.stat("cell_"+r.cfg.cellNoLoc()+"/"+locName(loc), 1)
-				}
+		if doObs && cap(v) > 0 && locBefore >= 0 && r.locateFor(path, key) == locBefore {
+			r.observe(path, locBefore, v)
+			if i == 0 {
+				r.stat("cell_"+r.cfg.cellNoLoc()+"/"+locName(locBefore), 1)
 			}
 		}
 		if ok && mayScribble {
@@ -496,6 +507,13 @@ func locName(l int) string {
 		return "txntab"
 	}
 	return "?"
+}
+
+func (r *runner) locateFor(path int, key []byte) int {
+	if path == pathTxnGet {
+		return r.locateTxn(key)
+	}
+	return r.locate(key)
 }
 
 // extra locations of Transaction.Get
@@ -879,10 +897,10 @@ func (r *runner) sideWrite(seed int) func(i int) *failure {
 	}
 }
 
-func (r *runner) dbGet(k []byte) ([]byte, error)   { return r.db.Get(k, nil) }
-func (r *runner) dbHas(k []byte) (bool, error)     { return r.db.Has(k, nil) }
-func (r *runner) txnGet(k []byte) ([]byte, error)  { return r.txn.Get(k, nil) }
-func (r *runner) txnHas(k []byte) (bool, error)    { return r.txn.Has(k, nil) }
+func (r *runner) dbGet(k []byte) ([]byte, error)  { return r.db.Get(k, nil) }
+func (r *runner) dbHas(k []byte) (bool, error)    { return r.db.Has(k, nil) }
+func (r *runner) txnGet(k []byte) ([]byte, error) { return r.txn.Get(k, nil) }
+func (r *runner) txnHas(k []byte) (bool, error)   { return r.txn.Has(k, nil) }
 
 func (r *runner) checkAll() *failure {
 	keys := make([][]byte, 0, len(r.p.Pool)+3)
@@ -930,6 +948,10 @@ func (r *runner) step(i int, op *Op) (f *failure) {
 	}()
 	r.opIndex = i
 	r.stat("op_"+op.Kind, 1)
+	if timing {
+		t0 := time.Now()
+		defer func() { r.stat("us_"+op.Kind, int(time.Since(t0).Microseconds())) }()
+	}
 	if f := r.checkHeld(false); f != nil {
 		return f
 	}
@@ -983,6 +1005,8 @@ func (r *runner) step(i int, op *Op) (f *failure) {
 			return nil
 		}
 		s := r.snaps[op.I%len(r.snaps)]
+		r.readSeq = leveldb.VerifSnapshotSeq(s.snap)
+		defer func() { r.readSeq = 0 }()
 		return r.probeGet(s.frozen, func(k []byte) ([]byte, error) { return s.snap.Get(k, nil) }, op.K, 1, false, false, pathSnapGet, "snapshot")
 	case OSnapRel:
 		if len(r.snaps) == 0 {
@@ -1075,7 +1099,7 @@ func (r *runner) step(i int, op *Op) (f *failure) {
 		r.gateShut = false
 	case OIdle:
 		if r.txn == nil && !r.gateShut {
-			leveldb.VerifWaitIdle(r.db, 20*time.Second)
+			leveldb.VerifSettle(r.db, 20*time.Second)
 		}
 	case OReopen:
 		if r.txn != nil {
@@ -1254,7 +1278,6 @@ func (r *runner) conc(op *Op) *failure {
 								break
 							}
 							scribbleLen(v2)
-							scribble(v)
 						}
 					}
 				case OHas:
